@@ -92,7 +92,9 @@ type Server struct {
 
 func (s Server) getRequestContext() *app.RequestContext {
 	if disabaleRequestContextPool {
-		return &app.RequestContext{}
+		// not &app.RequestContext{}: the handler index of a usable context starts at -1,
+		// with index 0 Next() skips the first handler of every chain
+		return app.NewContext(0)
 	}
 	return s.Core.GetCtxPool().Get().(*app.RequestContext)
 }
